@@ -21,7 +21,7 @@ LEVEL = "exploration"
 RULE = ("every parameter class x configuration (must_exist, valid_types of CSV and NetCDF reads, nested ListParameters, ResultParameter "
         "with/without output type and each is_fuzzy) x ~130 raw values of every kind the parser or API delivers x working directory in "
         "{None, absolute, relative, empty}; plus live contracts during random whole-model runs; distinct by (parameter config, raw value class, wd, outcome class)")
-REQUIRED_COUNTERS = ["library_parameters_checked", "printvars_history_rechecks", "nested_list_runs", "failed_command_rechecks", "clean_calls_judged", "contract_evaluations", "idempotence_checks", "purity_snapshots_compared", "live_double_clean_pairs", "live_argument_snapshots_compared"]
+REQUIRED_COUNTERS = ["declared_text_outputs_judged", "library_parameters_checked", "printvars_history_rechecks", "nested_list_runs", "failed_command_rechecks", "clean_calls_judged", "contract_evaluations", "idempotence_checks", "purity_snapshots_compared", "live_double_clean_pairs", "live_argument_snapshots_compared"]
 ASSUMPTIONS = ["don't-care: what StringParameter makes of non-scalars, bool given to NumberParameter, ints other than 0/1 and numeric strings other than "
                "'0'/'1' given to BooleanParameter, 'nan'/'inf'/underscore literals, relative working directories", "NaN compared NaN-aware"]
 
@@ -253,6 +253,8 @@ def configs():
     cfgs[-3]._verif_table = {"Float": float, "Integer": int}
     cfgs[-2]._verif_table = {"Float": float, "Integer": int}
     cfgs[-1]._verif_table = dict(nc)
+    # results expected to be a kind of text: a path, the name of a data type
+    cfgs += [P.ResultParameter(P.PathParameter(must_exist=False)), P.ResultParameter(P.DataTypeParameter()), P.ListParameter(P.ResultParameter(P.PathParameter(must_exist=False)))]
     return cfgs
 
 
@@ -354,6 +356,9 @@ def _world(ctx, wd):
     # a copy of a fuzzy field (a copy is not declared fuzzy), and a command of a user class that inherits its fuzziness
     program.add_command(program.find_command_class("Copy"), "CF", {"InFieldName": "F"})
     program.add_command(program.find_command_class("MyOr"), "MO", {"InFieldNames": ["F"]})
+    # an unfinished command that declares a text as its output, and one that declares a number
+    program.add_command(program.find_command_class("PathChain"), "TX", {})
+    program.add_command(program.find_command_class("Num"), "NX", {"V": 5})
     # other programs of the process use other libraries: the NetCDF set is loaded in some worlds before anything is cleaned
     if wd in ("rel", "abs-copied", "none"):
         arr.new_program(arr.NC_LIBS)
@@ -502,6 +507,21 @@ def run_case(ctx, case):
             if ob == "ok" and oa != "ok":
                 ctx.fail("%s:%s:reference-cleans-differently-once-the-command-has-run:%s-instead-of-%s" % (label, value_class(raw), oa, ob), {"raw": repr(raw)[:120]})
                 break
+        if isinstance(param, P.ResultParameter) and param.output_type is not None and not program.commands["TX"].is_finished:
+            # declared outputs of commands that have not run yet: a text is taken where a kind of text (a text, a path, a
+            # data-type name) is expected and not where a number is; a number is taken for both
+            kind_of_text = isinstance(param.output_type, P.StringParameter)
+            for raw_, want_ in (("TX", "ok" if kind_of_text else "ResultTypeNotValid" if isinstance(param.output_type, P.NumberParameter) else None),
+                                (program.commands["TX"], "ok" if kind_of_text else None),
+                                ("NX", "ok" if kind_of_text or isinstance(param.output_type, P.NumberParameter) else None)):
+                if want_ is None:
+                    continue
+                ctx.count("clean_calls_judged")
+                ctx.count("declared_text_outputs_judged")
+                got_ = outcome(raw_)[0]
+                if got_ != want_:
+                    ctx.fail("%s:%s:declared-output-of-a-command-that-has-not-run:%s-instead-of-%s" % (label, value_class(raw_), got_, want_), {"raw": repr(raw_)[:80]})
+                    break
         if isinstance(param, P.ResultParameter) and param.is_fuzzy is not None:
             # a class that extends a fuzzy command is fuzzy itself
             o_mo = outcome("MO")[0]
